@@ -18,9 +18,13 @@ guard-cell count:
  T5 dy         dy = 2 pi / ny_core (> 0).
 y-coord / theta / chi and shared-edge coincidence are bounded checks on generated grids.
 """
+import types
+
+import numpy
 import z3
 
 from vc.sym import And, Or, Not, Implies, Sym, ite, spec_mode
+from . import meshkit as mk
 from . import topokit as tk
 
 LEVEL = "proof"
@@ -185,6 +189,58 @@ def refused_ok(path):
     return isinstance(path.exc, ValueError) and "same set of x-grid sizes" in str(path.exc)
 
 
+FN_GEO = "hypnotoad.core.mesh:BoutMesh.geometry"
+
+
+def run_assembly(ctx):
+    """The nested addFromRegions / addFromRegionsXArray of BoutMesh.geometry (extracted
+    mechanically): every entry of a region's arrays lands at its global index, at all four
+    locations and the three extra corner arrays; x-direction arrays come from the first region
+    of each y-group."""
+    from hypnotoad.core import mesh as M
+    from vc import transform
+
+    m = object.__new__(M.BoutMesh)
+    m.nx, m.ny = 3, 4
+    m.fields_to_output, m.arrayXDirection_to_output = [], []
+    boxes = {0: (0, 1, 0, 2), 1: (1, 3, 0, 2), 2: (0, 1, 2, 4), 3: (1, 3, 2, 4)}
+    m.regions, m.region_indices = {}, {}
+    for rid, (x0, x1, y0, y1) in boxes.items():
+        r = types.SimpleNamespace(myID=rid, nx=x1 - x0, ny=y1 - y0, name="r%d" % rid)
+        r.fld = mk.sym_mla(ctx, "f%d" % rid, mk.LOCS4, r.nx, r.ny, shared=False)
+        r.fld.attributes = {}
+        xa = mk.mla_cls()(r.nx, 1)
+        for i in range(r.nx):
+            xa.centre[i, 0] = ctx.real("xa%d_c%d" % (rid, i))
+        for i in range(r.nx + 1):
+            xa.xlow[i, 0] = ctx.real("xa%d_x%d" % (rid, i))
+        xa.attributes = {}
+        r.xarr = xa
+        m.regions[rid] = r
+        m.region_indices[rid] = numpy.index_exp[x0:x1, y0:y1]
+    m.y_groups = [[m.regions[0], m.regions[2]], [m.regions[1], m.regions[3]]]
+    add = transform.recompile(M.BoutMesh.geometry, nested="addFromRegions", extra_globals={"self": m}, lift=False)
+    addx = transform.recompile(M.BoutMesh.geometry, nested="addFromRegionsXArray", extra_globals={"self": m}, lift=False)
+    add("fld", all_corners=True)
+    addx("xarr")
+    g, gx = m.fld, m.xarr
+    with spec_mode():
+        ctx.oblige(TRUE(m.fields_to_output == ["fld"] and m.arrayXDirection_to_output == ["xarr"] and g.attributes.get("bout_type") == "Field2D" and gx.attributes.get("bout_type") == "ArrayX"), "registered for output with its bout_type")
+        for rid, (x0, x1, y0, y1) in boxes.items():
+            f = m.regions[rid].fld
+            for i in range(x1 - x0):
+                for j in range(y1 - y0):
+                    I, J = x0 + i, y0 + j
+                    ctx.oblige(And(g.centre[I, J] == f.centre[i, j], g.xlow[I, J] == f.xlow[i, j], g.ylow[I, J] == f.ylow[i, j], g.corners[I, J] == f.corners[i, j]), "region %d cell (%d,%d) -> global (%d,%d): centre, lower x-face, lower y-face, lower-left corner" % (rid, i, j, I, J))
+                    ctx.oblige(And(g.lower_right_corners[I, J] == f.corners[i + 1, j], g.upper_right_corners[I, J] == f.corners[i + 1, j + 1], g.upper_left_corners[I, J] == f.corners[i, j + 1]), "region %d cell (%d,%d): the other three corners of the cell" % (rid, i, j))
+        for grp in m.y_groups:
+            r = grp[0]
+            x0 = boxes[r.myID][0]
+            for i in range(r.nx):
+                ctx.oblige(And(gx.centre[x0 + i, 0] == r.xarr.centre[i, 0], gx.xlow[x0 + i, 0] == r.xarr.xlow[i, 0]), "x-direction array: entry %d of the FIRST region of its y-group" % (x0 + i))
+    return m
+
+
 def build(S):
     S.under_contract(*FNS)
     S.assume("specification provenance: bout_up is written from doc/grid-file.rst and BOUT++'s BoutMesh::topology branch-cut semantics (lower X-point cuts inside ixseps1, upper X-point cuts inside ixseps2, upper target after ny_inner-1); it is a specification, not extracted from hypnotoad")
@@ -199,4 +255,7 @@ def build(S):
             S.contract("topology[%s]" % topo, FNS[-1], make_run(topo), shape="structure concrete, all sizes symbolic Int", expected_exceptions=(ValueError,), raises_ok=refused_ok)
         from vc import transform
 
+        S.under_contract(FN_GEO)
+        S.extraction.append(dict(function="BoutMesh.geometry.addFromRegions / addFromRegionsXArray", sliced="nested defs lifted out unchanged (free variable self supplied)"))
+        S.contract("geometry[assembly of global arrays]", FN_GEO, run_assembly, shape="4 regions (2x2 blocks of sizes 1x2, 2x2), all values symbolic")
         S.contract("dy", FNS[7], run_dy, shape="sizes symbolic", expected_exceptions=(ValueError,), raises_ok=refused_ok)
